@@ -522,9 +522,34 @@ def eval_spec_bool(ex, ctx, st, spec, args, old_heap=None, extra=None, base_spec
     a, v = _instantiate(ex, sm, args, st, old_heap)
     ctx.assume(a, "spec-standing-assumptions", heavy=heavy)
     if as_goal and _LAST_FRESH[0]:
-        # witnesses introduced by the spec (first-match indices ...) are existential in a proof goal
-        v = z3.Exists(list(_LAST_FRESH[0]), v)
+        # Witnesses introduced by the spec's own path conditions (first-match indices ...) are existential in a
+        # proof goal.  Symbols that the standing assumption `a` defines (results of relational merges and the
+        # witnesses their defining disjunction mentions) must stay free: they are shared with `a`, which is
+        # assumed on the path; quantifying them here would cut the goal loose from their definition.
+        in_a = _const_names(a)
+        bound = [f for f in _LAST_FRESH[0] if f.decl().name() not in in_a]
+        if bound:
+            v = z3.Exists(bound, v)
     return v
+
+
+def _const_names(t):
+    out = set()
+    seen = set()
+    stack = [t]
+    while stack:
+        x = stack.pop()
+        i = x.get_id()
+        if i in seen:
+            continue
+        seen.add(i)
+        if z3.is_quantifier(x):
+            stack.append(x.body())
+        elif z3.is_app(x):
+            if x.num_args() == 0 and x.decl().kind() == z3.Z3_OP_UNINTERPRETED:
+                out.add(x.decl().name())
+            stack.extend(x.children())
+    return out
 
 
 def eval_spec_value(ex, ctx, st, spec, args, old_heap=None):
@@ -547,10 +572,30 @@ def eval_spec_inline(ex, ctx, st, spec, args):
                     tuple(sorted((k_, h_.get_id()) for k_, h_ in st.heap.items())))
         except Unsupported:
             mkey = None
+    xkey = None
     if mkey is not None:
         hit = ctx.memo_get(mkey)
         if hit is not None:
             return hit[0]
+        # cross-path memo: exploration is by re-execution, so sibling paths repeat the same evaluation under the
+        # same path-condition prefix (identical terms); replay its effects instead of recomputing
+        xm = getattr(ctx.explorer, "xmemo", None)
+        if xm is None:
+            xm = ctx.explorer.xmemo = {}
+        xkey = (mkey, tuple(c_.get_id() for c_ in ctx.pc), ctx.fresh_n)
+        xhit = xm.get(xkey)
+        if xhit is not None:
+            out, pc_add, kinds_add, names_add, fresh_after, heap_add = xhit[:6]
+            ctx.pc.extend(pc_add)
+            ctx.kinds.extend(kinds_add)
+            ctx.assumptions_used.extend(names_add)
+            ctx.fresh_n = fresh_after
+            for k_, h_ in heap_add.items():
+                st.heap.setdefault(k_, h_)
+            ctx.memo[mkey] = (out, [box(a) for a in args], dict(st.heap))
+            return out
+    pc_len0, names_len0, heap_keys0 = len(ctx.pc), len(ctx.assumptions_used), set(st.heap)
+    pc_keep0 = list(ctx.pc)
 
     def run(c2):
         st2 = st.copy()
@@ -588,6 +633,11 @@ def eval_spec_inline(ex, ctx, st, spec, args):
                        uid0)
     if mkey is not None:
         ctx.memo[mkey] = (out, [box(a) for a in args], dict(st.heap))  # keeps the key's terms alive
+    if xkey is not None:
+        ctx.explorer.xmemo[xkey] = (out, list(ctx.pc[pc_len0:]), list(ctx.kinds[pc_len0:]),
+                                    list(ctx.assumptions_used[names_len0:]), ctx.fresh_n,
+                                    {k_: h_ for k_, h_ in st.heap.items() if k_ not in heap_keys0},
+                                    pc_keep0, [box(a) for a in args], dict(st.heap))
     return out
 
 
